@@ -128,6 +128,8 @@ class ACModel:
             if self.strict and pid not in self.props:
                 return None
             self.props[pid] = bytes([val[1], val[2]]) if len(val) >= 3 else bytes([0, 0])
+            if getattr(self, "ieco_full", False):
+                self.props[pid] += bytes([60, 40, 40, 40, 0])       # the full record of the vendor layout: number, switch, target rate, wind speeds, valve
             return self.props[pid]
         if self.strict and pid not in self.props:
             return None                       # a register this appliance does not have: write ignored, nothing reported
